@@ -85,12 +85,17 @@ def catalogue():
     for ident, ver, fmt in itertools.product((True,), (None, True), (None, True)):
         add('get_schema', 'version=%s,format=%s' % (ver, fmt),
             (lambda ver=ver, fmt=fmt: dict(identifier=S('identifier'), version=S('version') if ver else None, format=S('format') if fmt else None)))
-    ENUM_DO = [None, 'merge', 'replace', 'none', OUT]
-    ENUM_TO = [None, 'test-then-set', 'set', 'test-only', OUT]
-    ENUM_EO = [None, 'stop-on-error', 'continue-on-error', 'rollback-on-error', OUT]
+    # near misses: outside the RFC 6241 enumerations, but equal to a member after case folding / stripping
+    NEAR = ('Merge', ' none', 'TEST-ONLY', 'set ', 'Rollback-On-Error', 'stop-on-error\n')
+    ENUM_DO = [None, 'merge', 'replace', 'none', OUT, 'Merge', ' none']
+    ENUM_TO = [None, 'test-then-set', 'set', 'test-only', OUT, 'TEST-ONLY', 'set ']
+    ENUM_EO = [None, 'stop-on-error', 'continue-on-error', 'rollback-on-error', OUT, 'Rollback-On-Error', 'stop-on-error\n']
     for fmt, tgt, do, to, eo in itertools.product(('xml', 'xml-ele', 'text', 'url', 'badurl'), DATASTORES, ENUM_DO, ENUM_TO, ENUM_EO):
         # full product for format=xml; the other formats against a pairwise slice
         if fmt != 'xml' and not ((do, to, eo).count(None) >= 2):
+            continue
+        nn = sum(1 for v in (do, to, eo) if v in NEAR)
+        if nn and (nn > 1 or OUT in (do, to, eo) or fmt != 'xml' or tgt != DATASTORES[0] and (do, to, eo).count(None) < 2):
             continue
 
         def kw(fmt=fmt, tgt=tgt, do=do, to=to, eo=eo):
@@ -98,7 +103,7 @@ def catalogue():
                    'badurl': lambda: 'not a url'}[fmt]()
             f = {'xml': 'xml', 'xml-ele': 'xml', 'text': 'text', 'url': 'url', 'badurl': 'url'}[fmt]
             return dict(config=cfg, format=f, target=ds(tgt, 'target'), default_operation=do, test_option=to, error_option=eo)
-        add('edit_config', 'format=%s,target=%s,do=%s,to=%s,eo=%s' % (fmt, tgt, do, to, eo), kw, outsider=(OUT in (do, to, eo) or fmt == 'badurl'))
+        add('edit_config', 'format=%s,target=%s,do=%s,to=%s,eo=%s' % (fmt, tgt, do, to, eo), kw, outsider=(OUT in (do, to, eo) or fmt == 'badurl' or any(v in NEAR for v in (do, to, eo))))
     for src in DATASTORES + ['config']:
         for tgt in DATASTORES:
             add('copy_config', 'source=%s,target=%s' % (src, tgt),
@@ -109,11 +114,11 @@ def catalogue():
     for src in DATASTORES + ['config']:
         add('validate', 'source=%s' % src, (lambda src=src: dict(source=cfg_ele() if src == 'config' else ds(src, 'source'))))
     for confirmed, tmo, persist, pid in itertools.product((False, True), (None, True), (None, True), (None, True)):
-        if not confirmed and (tmo or persist):
-            continue            # documented as parameters OF a confirmed commit
+        # timeout / persist are documented as parameters OF a confirmed commit; without confirmed=True they must not put a
+        # confirmed-commit element on the wire un-gated (Spec: gatedParamsOk)
         add('commit', 'confirmed=%s,timeout=%s,persist=%s,persist_id=%s' % (confirmed, tmo, persist, pid),
-            (lambda confirmed=confirmed, tmo=tmo, persist=persist, pid=pid: dict(confirmed=confirmed, timeout=S('timeout') if tmo else None,
-                                                                                 persist=S('persist') if persist else None,
+            (lambda confirmed=confirmed, tmo=tmo, persist=persist, pid=pid: dict(confirmed=confirmed, timeout=(S('timeout') if confirmed else '120') if tmo else None,
+                                                                                 persist=(S('persist') if confirmed else 'plain-token') if persist else None,
                                                                                  persist_id=S('persistid') if pid else None)),
             outsider=bool(persist and pid))
     add('discard_changes', '', lambda: {})
@@ -159,11 +164,10 @@ def catalogue():
              dict(confirmed=confirmed, timeout=tmo, comment=S('comment') if comment else None, synchronize=sync,
                   at_time=S('attime') if at else None, check=check)), outsider=bool(confirmed and at), profile=J)
     for confirmed, tmo, persist, pid, comment in itertools.product((False, True), (None, True), (None, True), (None, True), (None, True)):
-        if not confirmed and (tmo or persist):
-            continue
         add('commit', 'confirmed=%s,timeout=%s,persist=%s,persist_id=%s,comment=%s' % (confirmed, tmo, persist, pid, comment),
             (lambda confirmed=confirmed, tmo=tmo, persist=persist, pid=pid, comment=comment:
-             dict(confirmed=confirmed, timeout=S('timeout') if tmo else None, persist=S('persist') if persist else None,
+             dict(confirmed=confirmed, timeout=(S('timeout') if confirmed else '120') if tmo else None,
+                  persist=(S('persist') if confirmed else 'plain-token') if persist else None,
                   persist_id=S('persistid') if pid else None, comment=S('comment') if comment else None)),
             outsider=bool(persist and pid), profile='sros')
     add('md_cli_raw_command', '', lambda: dict(command=S('command')), profile='sros')
